@@ -210,7 +210,8 @@ c.param('self', Ref('BaseServer')).param('message', [NONE, STR])
 c.returns(RESP)
 c.ensures('status-400', "result['status'] == '400 BAD REQUEST'")
 c.ensures('headers', CT_PLAIN)
-c.ensures('body', "result['response'] == json_text(message or 'Bad Request').encode('utf-8')")
+c.ensures('body', "result['response'] == "
+          "json_text('Bad Request' if message is None else message).encode('utf-8')")
 
 c = REG.contract('base_server.BaseServer._method_not_found', props=['C12', 'C15'])
 c.param('self', Ref('BaseServer'))
